@@ -46,6 +46,14 @@ func (v *FnVC) callCommon(c *ssa.CallCommon, val ssa.Value, pos token.Pos, how s
 		args = append(args, recv)
 		it := c.Value.Type()
 		key, short = ifaceMethodKey(it, c.Method.Name())
+		if _, has := v.w.cs.Funcs[key]; !has {
+			// no contract under the static interface's name: use the contract of the embedded interface that declares the method
+			if d := declaringIface(it, c.Method.Name()); d != nil && d != it {
+				if k2, s2 := ifaceMethodKey(d, c.Method.Name()); v.w.cs.Funcs[k2] != nil {
+					key, short = k2, s2
+				}
+			}
+		}
 		pnames = append(pnames, "self")
 		v.safety("nil-iface-call", fmt.Sprintf("(not (= %s 0))", recv.S), pos)
 	} else if fn := c.StaticCallee(); fn != nil {
@@ -365,7 +373,6 @@ func ifaceMethodKey(it types.Type, m string) (string, string) {
 		if n.Obj().Pkg() != nil {
 			pkg = n.Obj().Pkg().Path()
 		}
-		// find the embedded interface that declares the method
 		short := n.Obj().Name() + "." + m
 		if pkg == "" {
 			pkg = "builtin" // the predeclared error interface
@@ -373,6 +380,29 @@ func ifaceMethodKey(it types.Type, m string) (string, string) {
 		return pkg + "." + short, short
 	}
 	return "anon.iface." + m, "iface." + m
+}
+
+// declaringIface: the embedded named interface (searched depth first) that declares method m, or nil.
+func declaringIface(it types.Type, m string) *types.Named {
+	n, ok := it.(*types.Named)
+	if !ok {
+		return nil
+	}
+	iface, ok := n.Underlying().(*types.Interface)
+	if !ok {
+		return nil
+	}
+	for i := 0; i < iface.NumExplicitMethods(); i++ {
+		if iface.ExplicitMethod(i).Name() == m {
+			return n
+		}
+	}
+	for i := 0; i < iface.NumEmbeddeds(); i++ {
+		if d := declaringIface(iface.EmbeddedType(i), m); d != nil {
+			return d
+		}
+	}
+	return nil
 }
 
 func (v *FnVC) noteUncontracted(key, short string) {
